@@ -288,7 +288,9 @@ class PlainQuantity(Generic[MagnitudeT], PrettyIPython, SharedRegistryObject):
         if self_base.dimensionless:
             return hash(self_base.magnitude)
 
-        return hash((self_base.__class__, self_base.magnitude, self_base.units))
+        return hash(
+            (self_base.__class__, self_base.magnitude, self_base.dimensionality)
+        )
 
     @property
     def magnitude(self) -> MagnitudeT:
